@@ -202,13 +202,20 @@ pub fn cases(quick: bool) -> Vec<UniCase> {
             }
         }
     }
-    // ---- FP with three tasks on a thinner menu
-    let thin: Vec<ArrSpec> = arrs
-        .iter()
-        .enumerate()
-        .filter(|(i, _)| i % if quick { 5 } else { 2 } == 0)
-        .map(|(_, a)| a.clone())
-        .collect();
+    // ---- three tasks: a menu with long enough periods for three tasks to be feasible together
+    let mut thin: Vec<ArrSpec> = vec![
+        ArrSpec::Sporadic { t: 6, j: 0 },
+        ArrSpec::Sporadic { t: 8, j: 3 },
+        ArrSpec::Sporadic { t: 12, j: 0 },
+        ArrSpec::Sporadic { t: 12, j: 14 },
+        ArrSpec::Curve { dmin: vec![0, 10] },
+        ArrSpec::ExtCurve {
+            dmin: vec![3, 9, 15],
+        },
+    ];
+    if !quick {
+        thin.extend(arrs.iter().enumerate().filter(|(i, _)| i % 4 == 0).map(|(_, a)| a.clone()));
+    }
     for a0 in &thin {
         for a1 in &thin {
             for a2 in &thin {
@@ -376,9 +383,10 @@ pub fn run(ctx: &mut Ctx) -> (String, Value, Vec<String>) {
         let (k, t, m) = compare(c);
         n.fetch_add(k, Ordering::Relaxed);
         nt.fetch_add(t, Ordering::Relaxed);
-        if m.is_empty() {
+        if catch(|| run_uni(c)).ok().and_then(|o| o.ok()).is_some() {
             okc.fetch_add(1, Ordering::Relaxed);
-        } else {
+        }
+        if !m.is_empty() {
             bad.lock().unwrap().extend(m);
         }
         *per_ana.lock().unwrap().entry(c.ana.name().to_string()).or_insert(0) += k;
@@ -396,6 +404,7 @@ pub fn run(ctx: &mut Ctx) -> (String, Value, Vec<String>) {
         "distinct_nontrivial": nt.load(Ordering::Relaxed),
         "rule": "every (analysis, task set, blocking, segment parameters, deadlines) tuple of the box x limits {60, R-1, R, R+1, R+3, 2R+1} (R = naive result; 7 and 13 when the naive evaluation diverges) is one comparison of the real analysis with the naive all-offset linear-scan evaluator; non-trivial = the naive result exceeds the analysed task's own WCET (divergences are compared too but not counted as non-trivial)",
         "cases": cs.len(),
+        "cases_with_ok_result_at_limit_60": okc.load(Ordering::Relaxed),
         "comparisons_per_analysis": *per_ana.lock().unwrap(),
         "samples": samples,
         "exhaustive": true,
